@@ -145,6 +145,7 @@ fn counter_box<const K: usize>() {
 
 /// Trait with a consuming method: symbolic borrowed calls, then the by-value call.
 fn consume_box<const K: usize>(with_ctx: bool) {
+    reset();
     ctx_reset();
     let mut direct: St = nd::any();
     let twin = direct.clone();
@@ -160,6 +161,7 @@ fn consume_box<const K: usize>(with_ctx: bool) {
             k += 1;
         }
         assert!(direct.finish() == $obj.finish(), "consuming call: same result from the same final state");
+        assert!(live() == 0 && drops() == made(), "both consumed values were destroyed exactly once");
     }}}
     if with_ctx {
         let mut obj = trait_obj!((twin, Ctx::new()) as Consume);
@@ -267,6 +269,7 @@ fn group_cast<const K: usize>() {
 
 /// Consuming method reached through a group and through a cast of it.
 fn group_consume() {
+    reset();
     let mut direct: St = nd::any();
     let twin = direct.clone();
     let mut grp = group_obj!(twin as GrpC);
@@ -288,6 +291,7 @@ fn group_consume() {
             assert!(direct.finish() == c.finish());
         }
     }
+    assert!(live() == 0 && drops() == made(), "both consumed values were destroyed exactly once");
 }
 
 /// Group over a mutable reference.
